@@ -36,6 +36,21 @@ func runC03(c *engine.Ctx, tier string) {
 	tombstones(c)
 	persistTable(c, "C03.5a", pkgStoreCfgV2)
 	persistTable(c, "C03.5b", pkgStoreCfgV3)
+	removalsPersisted(c)
+	ancestorSearch(c)
+	mergeAgreement(c)
+	// (9) an acknowledged Set's values are in the stored configuration: the commit step skips the merge
+	// when the committed cursor is not at the predecessor, which is sound only because validation waited
+	// for the predecessor's commit (the cursor is then at the predecessor or already at this proposal)
+	c.Al = proposalAliases(c.P)
+	c.Guard(engine.Guard{ID: "C03.9a", Pkg: pkgProposalCtl, Min: 1,
+		Sel:     engine.Sel{Field: "config/v2.ProposalValidatePhase.State", RHS: "config/v2.ProposalValidatePhase_VALIDATED"},
+		Require: "!(@PREV != 0 && @CFG.Status.Committed.Index != @PREV)",
+		Why:     "a proposal leaves validation only on top of its predecessor's committed result: otherwise its commit step finds the cursor elsewhere, skips the merge and still reports COMMITTED — an acknowledged Set whose values were never stored"})
+	c.Guard(engine.Guard{ID: "C03.9b", Pkg: pkgProposalCtl, Min: 1,
+		Sel:     engine.Sel{Call: stCfgUpdate},
+		Require: "@CFG.Status.Committed.Index == @PREV && #wrote(" + fCommittedIdx + "=@OWN)",
+		Why:     "values are merged exactly once, on the predecessor's result, and the same write moves the cursor"})
 }
 
 var pathNameRe = regexp.MustCompile(`(?i)path|prefix`)
@@ -631,4 +646,217 @@ func b2s(b bool) string {
 		return "y"
 	}
 	return "n"
+}
+
+// removalsPersisted: C03.6. The controllers express "this entry is gone" by deleting it from the
+// configuration's value map before Store.Update; the store must then be able to see removals, i.e.
+// enumerate what is persisted, not only what the map holds.
+func removalsPersisted(c *engine.Ctx) {
+	o := c.Custom("C03.6", "agreement(writer/persister)", "every delete() on a configuration value map that reaches Store.Update is matched by a store() that enumerates the persisted entries (else the removal is not persisted)",
+		"a tombstone removed from the map only comes back with the next read and prunes the value re-created beneath it")
+	defer o.Done(1)
+	for _, pair := range [][2]string{{pkgProposalCtl, pkgStoreCfgV2}, {pkgTxCtlV3, pkgStoreCfgV3}} {
+		ctl, st := c.P.Pkg(pair[0]), c.P.Pkg(pair[1])
+		if ctl == nil || st == nil {
+			o.Undecided(pair[0], "package not loaded")
+			continue
+		}
+		// does store() enumerate the primitive?
+		enumerates, found := false, false
+		for _, fi := range c.P.FuncsOf(st) {
+			if fi.Decl.Name.Name != "store" {
+				continue
+			}
+			found = true
+			ast.Inspect(fi.Decl.Body, func(n ast.Node) bool {
+				call, ok := n.(*ast.CallExpr)
+				if !ok {
+					return true
+				}
+				if sel, ok := call.Fun.(*ast.SelectorExpr); ok && (sel.Sel.Name == "List" || sel.Sel.Name == "Entries" || sel.Sel.Name == "Keys") {
+					if t := st.TypesInfo.TypeOf(sel.X); t != nil && strings.Contains(t.String(), "atomix") {
+						enumerates = true
+					}
+				}
+				return true
+			})
+		}
+		if !found {
+			o.Undecided(pair[1], "store() not found")
+			continue
+		}
+		info := ctl.TypesInfo
+		isValueMap := func(e ast.Expr) bool {
+			t := info.TypeOf(e)
+			if t == nil {
+				return false
+			}
+			m, ok := t.Underlying().(*types.Map)
+			return ok && strings.HasSuffix(strings.TrimPrefix(m.Elem().String(), "*"), ".PathValue")
+		}
+		isPersistedExpr := func(e ast.Expr) bool {
+			sel, ok := ast.Unparen(e).(*ast.SelectorExpr)
+			if !ok || sel.Sel.Name != "Values" {
+				return false
+			}
+			t := info.TypeOf(sel.X)
+			if t == nil {
+				return false
+			}
+			s := t.String()
+			return strings.HasSuffix(s, ".Configuration") || strings.HasSuffix(s, ".CommittedConfiguration") || strings.HasSuffix(s, ".AppliedConfiguration") || strings.HasSuffix(s, ".AppliedConfigurationStatus")
+		}
+		for _, fi := range c.P.FuncsOf(ctl) {
+			ast.Inspect(fi.Decl.Body, func(n ast.Node) bool {
+				call, ok := n.(*ast.CallExpr)
+				if !ok || len(call.Args) != 2 {
+					return true
+				}
+				id, ok := call.Fun.(*ast.Ident)
+				if !ok || id.Name != "delete" || !isValueMap(call.Args[0]) {
+					return true
+				}
+				if _, isBuiltin := info.Uses[id].(*types.Builtin); !isBuiltin {
+					return true
+				}
+				persisted := isPersistedExpr(call.Args[0])
+				// a parameter: look at what the callers in this package pass
+				if pid, ok := ast.Unparen(call.Args[0]).(*ast.Ident); ok && !persisted {
+					pobj := info.Uses[pid]
+					idx := -1
+					if fi.Decl.Type.Params != nil {
+						k := 0
+						for _, f := range fi.Decl.Type.Params.List {
+							for _, nm := range f.Names {
+								if info.Defs[nm] == pobj {
+									idx = k
+								}
+								k++
+							}
+						}
+					}
+					if idx >= 0 {
+						for _, cs := range c.P.CallSites() {
+							if cs.Pkg == pair[0] && calleeFunc(cs) == fi.Obj && idx < len(cs.Call.Args) && isPersistedExpr(cs.Call.Args[idx]) {
+								persisted = true
+							}
+						}
+					}
+				}
+				if !persisted {
+					return true
+				}
+				o.Site(c.P.Pos(call.Pos()) + " " + types.ExprString(call) + " in " + fi.Name())
+				o.Eval(1)
+				if !enumerates {
+					o.Fail(&engine.Violation{Key: fi.Name() + "|delete on a persisted value map; " + pair[1] + " store() sees only keys present in the map", Pos: c.P.Pos(call.Pos()), Func: fi.Name(),
+						Msg: "the entry is deleted from the configuration's value map, but store() in " + pair[1] + " ranges over the map only and never enumerates the persisted entries: the removal is not persisted and the entry returns with the next read"})
+				}
+				return true
+			})
+		}
+	}
+}
+
+// ancestorSearch: C03.7. Whoever looks for a deleted ancestor of a path must use the subtree relation.
+func ancestorSearch(c *engine.Ctx) {
+	o := c.Custom("C03.7", "pathrel(ancestor search)", "a function that removes or captures the tombstone of an ancestor finds the ancestor with "+subtreeHelper+", not by walking GetParentPath (which never yields the key-less list path /l from /l[k=1]/v)",
+		"after a whole list was deleted, a new entry must clear the list's tombstone, or the store prunes the entry at once")
+	defer o.Done(2)
+	for _, rel := range []string{pkgProposalCtl, pkgTxCtlV3} {
+		pkg := c.P.Pkg(rel)
+		if pkg == nil {
+			o.Undecided(rel, "package not loaded")
+			continue
+		}
+		for _, fi := range c.P.FuncsOf(pkg) {
+			usesParentWalk, usesRelation, deletes := false, false, false
+			var pos ast.Node
+			ast.Inspect(fi.Decl.Body, func(n ast.Node) bool {
+				call, ok := n.(*ast.CallExpr)
+				if !ok {
+					return true
+				}
+				switch f := call.Fun.(type) {
+				case *ast.SelectorExpr:
+					if fn, ok := pkg.TypesInfo.Uses[f.Sel].(*types.Func); ok && fn.Pkg() != nil && strings.HasSuffix(fn.Pkg().Path(), "pkg/utils/path") {
+						switch fn.Name() {
+						case "GetParentPath":
+							usesParentWalk = true
+							if pos == nil {
+								pos = call
+							}
+						case "IsDescendantPath":
+							usesRelation = true
+						}
+					}
+				case *ast.Ident:
+					if _, isBuiltin := pkg.TypesInfo.Uses[f].(*types.Builtin); isBuiltin && f.Name == "delete" {
+						deletes = true
+					}
+				}
+				return true
+			})
+			if !deletes || (!usesParentWalk && !usesRelation) {
+				continue
+			}
+			o.Site(c.P.Pos(fi.Decl.Pos()) + " " + fi.Name())
+			o.Eval(1)
+			if usesParentWalk && !usesRelation {
+				o.Fail(&engine.Violation{Key: fi.Name() + "|ancestor tombstone searched by GetParentPath chain", Pos: c.P.Pos(pos.Pos()), Func: fi.Name(),
+					Msg: "the deleted ancestor is searched by walking GetParentPath, whose chain from /l[k=1]/v is /l[k=1] then the root: the tombstone of a deleted list (/l) is never found, and the new entry is pruned by the store"})
+			}
+		}
+	}
+}
+
+// mergeAgreement: C03.8. What is validated and what is persisted must be merged the same way.
+func mergeAgreement(c *engine.Ctx) {
+	o := c.Custom("C03.8", "agreement(validated/persisted merge)", "a function that merges a change into a copy of the values with applyChangeToConfig (clearing ancestor tombstones) merges it into the persisted map the same way, not by a bare indexed write",
+		"the validated tree has the re-created value, the persisted map still has the ancestor's tombstone above it, and the store prunes the value")
+	defer o.Done(2)
+	for _, rel := range []string{pkgProposalCtl, pkgTxCtlV3} {
+		pkg := c.P.Pkg(rel)
+		if pkg == nil {
+			o.Undecided(rel, "package not loaded")
+			continue
+		}
+		info := pkg.TypesInfo
+		persisted := func(e ast.Expr) bool {
+			sel, ok := ast.Unparen(e).(*ast.SelectorExpr)
+			if !ok || sel.Sel.Name != "Values" {
+				return false
+			}
+			t := info.TypeOf(sel.X)
+			return t != nil && (strings.HasSuffix(t.String(), ".Configuration") || strings.HasSuffix(t.String(), ".CommittedConfiguration"))
+		}
+		for _, fi := range c.P.FuncsOf(pkg) {
+			usesHelperOnCopy := false
+			var bare []ast.Node
+			ast.Inspect(fi.Decl.Body, func(n ast.Node) bool {
+				switch x := n.(type) {
+				case *ast.CallExpr:
+					if id, ok := x.Fun.(*ast.Ident); ok && id.Name == "applyChangeToConfig" && len(x.Args) > 0 && !persisted(x.Args[0]) {
+						usesHelperOnCopy = true
+					}
+				case *ast.AssignStmt:
+					for _, l := range x.Lhs {
+						if ix, ok := l.(*ast.IndexExpr); ok && persisted(ix.X) {
+							bare = append(bare, x)
+						}
+					}
+				}
+				return true
+			})
+			if !usesHelperOnCopy {
+				continue
+			}
+			o.Site(c.P.Pos(fi.Decl.Pos()) + " " + fi.Name())
+			o.Eval(1)
+			for _, b := range bare {
+				o.Fail(&engine.Violation{Key: fi.Name() + "|persisted merge bypasses applyChangeToConfig", Pos: c.P.Pos(b.Pos()), Func: fi.Name(),
+					Msg: "the change is merged into the validated copy with applyChangeToConfig but into the persisted value map by a bare indexed write: an ancestor's tombstone stays above the new value and the store prunes it"})
+			}
+		}
+	}
 }
